@@ -468,8 +468,9 @@ inductive HOp
   /-- the clients change their subscription (delta: subscribe / unsubscribe lists; SotW: the new name list) -/
   | request (sub unsub : List String)
   /-- the streams are (re-)established: the server forgot everything; the delta client reports what
-      it holds, the SotW client re-sends its names; both may present the nonce they retained -/
-  | reconnect (keepNonce : Bool)
+      it holds, the SotW client re-sends its names; both may present the nonce they retained; `legacy`: the
+      delta client uses the legacy wildcard (no `resource_names_subscribe` at all) instead of `*` -/
+  | reconnect (keepNonce : Bool) (legacy : Bool := false)
 
 def HOp.wf : HOp → Prop
   | .push W => "*" ∉ names W
@@ -524,11 +525,12 @@ def hstep (t : Ty) (y : HSt) : HOp → HSt
         | none => (y.ssrv, y.heldS, y.nonceS)
       { y with dsrv := d.1, heldD := d.2.1, nonceD := d.2.2, ssrv := s.1, heldS := s.2.1, nonceS := s.2.2, subS := nm }
     else y
-  | .reconnect keep =>
+  | .reconnect keep legacy =>
     let dv : Srv := { ctr := y.dsrv.ctr }
     let sv : Srv := { ctr := y.ssrv.ctr }
     let d := match processDelta (fullGen y.world) dv
-        { ty := t, sub := ["*"], unsub := [], init := names y.heldD, nonce := if keep then y.nonceD else "", err := none } with
+        { ty := t, sub := if legacy then [] else ["*"], unsub := [], init := names y.heldD,
+          nonce := if keep then y.nonceD else "", err := none } with
       | some x => deliverD t y.world x.1 y.heldD y.nonceD x.2
       | none => (dv, y.heldD, y.nonceD)
     let s := match processSotw (fullGen y.world) sv { ty := t, names := y.subS, nonce := if keep then y.nonceS else "", err := none } with
@@ -636,8 +638,9 @@ theorem hstep_inv (t : Ty) (hset : shouldSetWatched t = true) (hnr : neverRemove
         ((union y.subS sub).filter (fun x => !unsub.contains x)) sws hsok hsw1 hsa
       simp only [hstep, hu, if_true, hdp, hsp]
       exact ⟨hsw, star_not_held _ y.world hsw hgd2.sync, fun _ => ⟨hgd2, hgs2⟩⟩
-  | reconnect keep =>
-    obtain ⟨dv, dws, hdp, hgd1⟩ := processDelta_first_good t hset hnr y.world { ctr := y.dsrv.ctr } y.heldD ["*"]
+  | reconnect keep legacy =>
+    obtain ⟨dv, dws, hdp, hgd1⟩ := processDelta_first_good t hset hnr y.world { ctr := y.dsrv.ctr } y.heldD
+      (if legacy then [] else ["*"])
       (if keep then y.nonceD else "") rfl rfl hsh
     have hgd2 := deliverD_good t hset hnr y.world hsw dv y.heldD y.nonceD dws hgd1
     obtain ⟨sv, sws, hsp, hsok, hsw1, hsall, hne⟩ := processSotw_good t hwild y.world { ctr := y.ssrv.ctr }
@@ -653,8 +656,12 @@ theorem hstep_inv (t : Ty) (hset : shouldSetWatched t = true) (hnr : neverRemove
     lost pushes, subscription changes and reconnects - every server decision taken by
     `processDelta` / `pushDeltaOne` / `processSotw` / `pushSotwOne`, every response ACKed through the
     same handlers - whenever the streams are up the delta client holds exactly what the SotW client
-    holds, and that is the snapshot.  (`t`: CDS, LDS, NDS or the Authorization type; generator: full,
-    not delta-aware; the snapshots contain no resource named `*`.) -/
+    holds, and that is the snapshot.  Scope: `t` is any wildcard, not generator-managed type, but the premise
+    "the generator is full and not delta-aware" (`fullGen`) is what the REAL code does only for LDS, NDS, and CDS on
+    forced pushes / requests (`BuildDeltaClusters` answers non-forced pushes with `usedDelta`; the Authorization
+    generator always does: for it see `wauth_*` in WdsTheorems.lean).  Only type `t` is watched in this system, so
+    the forced EDS push after a CDS request is the no-op branch here (`book` ties it, e2e c05 / c03 `creconn`
+    observe it).  The snapshots contain no resource named `*`. -/
 theorem delta_eq_sotw_history (t : Ty) (hset : shouldSetWatched t = true) (hnr : neverRemove t = false)
     (y0 : HSt) (hdown : y0.up = false) (hw0 : "*" ∉ names y0.world) (hh0 : "*" ∉ names y0.heldD)
     (ops : List HOp) (hwf : ∀ op ∈ ops, op.wf) :
@@ -683,7 +690,7 @@ example : shouldSetWatched .cds = true ∧ neverRemove .cds = false ∧ shouldSe
     reconnects again, subscribes to a name explicitly, and a further push deletes a cluster. -/
 example :
     let y0 : HSt := { world := [("a", 2), ("b", 1)], heldD := [("old", 1), ("a", 1)], heldS := [("old", 1), ("a", 1)] }
-    let y := [HOp.reconnect true, .pushLost [("a", 3), ("b", 1), ("c", 1)], .reconnect false, .request ["b"] [],
+    let y := [HOp.reconnect true, .pushLost [("a", 3), ("b", 1), ("c", 1)], .reconnect false true, .request ["b"] [],
               .push [("a", 3), ("c", 2)]].foldl (hstep .cds) y0
     y.up = true ∧ get y.heldD "old" = none ∧ get y.heldD "a" = some 3 ∧ get y.heldD "b" = none ∧
       get y.heldD "c" = some 2 ∧ y.heldS = [("a", 3), ("c", 2)] := by
